@@ -57,7 +57,7 @@ pub fn run(ctx: &Ctx, ev: &mut Ev) {
             encs: families(), small_alpha: !th || small, maxlen: if small { 2 } else if th { 4 } else { 3 }, utf16_extra: 1,
             boms: vec![Bom::Off, Bom::Sniff], sinks: vec![Sink::U8, Sink::U16], repls: vec![false, true],
             cap_offsets: vec![vec![0], vec![1], vec![2], vec![3], vec![0, 6]], last_seps: vec![false, true],
-            stride: if small { 97 } else if th { 3 } else { 1 }, prefixes: vec![], fills: vec![0xA5], token_streams: (2, 2)
+            stride: if small { 97 } else if th { 3 } else { 1 }, prefixes: vec![], fills: vec![0xA5], token_streams: if small { (0, 0) } else { (3, 2) }
         };
         ev.note(format!("enum: {}", sp.describe()));
         let mut rf: Option<Ref> = None;
